@@ -5,7 +5,7 @@ TIER=${1:-quick}; shift
 PROPS=${@:-$(python3 -c "import json;print(' '.join(c['property_id'] for c in json.load(open('MANIFEST.json'))['checks']))")}
 rc=0
 for p in $PROPS; do
-  out=$(./check $p --tier $TIER 2>&1); code=$?
+  out=$(./check $p --tier $TIER ${UPDATE:+--update-baseline} 2>&1); code=$?
   echo "$p exit=$code $(echo "$out" | tail -1)"
   [ $code -ne 0 ] && { rc=1; echo "$out" | grep -E "^VIOLATION|^UNDECIDED|^CHECKER" | head -5 | cut -c1-300; }
 done
